@@ -1,0 +1,29 @@
+//go:build verif
+
+package glyf
+
+// Thin exported wrappers around unexported functions, used by the C11
+// verification harness only (build tag "verif").
+
+// VerifC11DecodeGlyph calls decodeGlyph.
+func VerifC11DecodeGlyph(data []byte) (*Glyph, error) { return decodeGlyph(data) }
+
+// VerifC11DecodeLoca calls decodeLoca.
+func VerifC11DecodeLoca(enc *Encoded) ([]int, error) { return decodeLoca(enc) }
+
+// VerifC11EncodeLoca calls encodeLoca.
+func VerifC11EncodeLoca(offs []int) ([]byte, int16) { return encodeLoca(offs) }
+
+// VerifC11RemovePadding calls removePadding on a copy of the glyph header and
+// returns the shortened Encoded slice.
+func VerifC11RemovePadding(numContours int16, encoded []byte) ([]byte, error) {
+	g := SimpleGlyph{NumContours: numContours, Encoded: encoded}
+	err := g.removePadding()
+	return g.Encoded, err
+}
+
+// VerifC11EncodeLen calls encodeLen.
+func VerifC11EncodeLen(g *Glyph) int { return g.encodeLen() }
+
+// VerifC11Append calls append.
+func VerifC11Append(g *Glyph, buf []byte) []byte { return g.append(buf) }
